@@ -23,7 +23,7 @@ CFG = """CONSTANTS
  Emit = TRUE
 INIT Init
 NEXT Next
-INVARIANTS KeysWellFormed NoEdgeBlanksUnquoted CommentNeutral RefRoundTrip
+INVARIANTS KeysWellFormed NoEdgeBlanksUnquoted CommentNeutral RefRoundTrip SetThenGet
 CHECK_DEADLOCK FALSE
 """
 
@@ -41,7 +41,7 @@ def run(ctx):
                        "list or error, plus the lexer rules exercised) is computed by the spec; each is rendered (canonical + seeded variant), "
                        "decoded by go-git and compared; git is asked on a seeded sample and on every disagreement; distinct = concrete files + values")
     d = r.dir
-    ctx.vh("c48", [d + "/cfg_rows.ndjson", d + "/cfg_wrows.ndjson", d + "/cfg_bool.ndjson", d + "/cfg_int.ndjson"], pkg="vhtext", timeout=3000)
+    ctx.vh("c48", [d + "/cfg_rows.ndjson", d + "/cfg_wrows.ndjson", d + "/cfg_bool.ndjson", d + "/cfg_int.ndjson", d + "/cfg_edit.ndjson"], pkg="vhtext", timeout=3000)
     ctx.cov["traces_validated_against_impl"] = ctx.cov["evaluations"]
     ctx.assumptions += [
         "byte classes of ConfigLex.tla represent their concrete bytes faithfully (validated against git config --list --null on the same files)",
